@@ -90,7 +90,7 @@ def gen_wait(rnd, *, timeouts=True, log_step=None, targeted_ext=True):
     tmo = None
     if timeouts and rnd.random() < 0.5:
         tmo = rnd.choice([0.5, 1, 2, 3, 5])
-    wait = {"k": "wait", "type": "Answer", "req": ({"key": "{v}"} if use_req else {}), "wid": "w-{v}", "ask": "Ask"}
+    wait = {"k": "wait", "type": "Answer", "req": ({"key": "{v}"} if use_req else {}), "wid": "w-{uid}", "ask": "Ask"}
     if tmo is not None:
         wait["timeout"] = tmo
     steps = [
